@@ -469,6 +469,17 @@ def judge_c01(d):
     """violation iff the implementation let something out (egress or a 200) that the gate model refuses,
     or answered a refused request with something else than 407 + challenge"""
     q, impl, model = d["query"], d["impl"], d["model"]
+    if q.startswith("c17 run "):
+        # plain-HTTP forwarding (suite c17, borrowed): bytes beyond the authorised request - a pipelined next request, which
+        # has not passed the gate - must not leave with it
+        fi = dict(t.split("=", 1) for t in impl.split() if "=" in t)
+        fm = dict(t.split("=", 1) for t in model.split() if "=" in t)
+        ri, rm = fi.get("req", "-"), fm.get("req", "-")
+        if ri != rm and len(ri) > len(rm) and ri.startswith(rm if rm != "-" else ""):
+            extra = unhex(ri[len(rm) if rm != "-" else 0:])
+            return ("the origin was sent %d byte(s) beyond the authorised request (%r...): they belong to whatever follows it on the "
+                    "session, which has not been authenticated" % (len(extra), extra[:60]))
+        return None
     if q.startswith("c10 real "):
         return None  # refusal codes of the real forwarder: C10's subject, no credentials involved
     ir, ie = _c10_parse(impl); mr, me = _c10_parse(model)
@@ -860,7 +871,8 @@ PROPS = {
              "concurrent requests ended in different ways; at the end every operation each HTTP/3 codec performed on its stream table "
              "(request, client FIN, client reset, half shutdowns, messages for unknown streams; about 110 per quick run, recorded by the door) "
              "is replayed by the Lean model TT.H3Streams, which must hold the same table after each"
-             " The HTTP/1.1 head / payload suite of C08 (c08) runs here as well: payload that shares a segment with the CONNECT head is the start of the relayed stream. Directed pipe histories: one direction ends at once, the other delivers 3 or 6 chunks with gaps of T/2, 3T/4, T-1 into a sink that takes everything / one byte per write / is slow to become writable (the replay checks that the surviving direction is cancelled only at its own timer, `survivorDeadline`)",
+             " The HTTP/1.1 head / payload suite of C08 (c08) runs here as well: payload that shares a segment with the CONNECT head is the start of the relayed stream. Directed pipe histories: one direction ends at once, the other delivers 3 or 6 chunks with gaps of T/2, 3T/4, T-1 into a sink that takes everything / one byte per write / is slow to become writable (the replay checks that the surviving direction is cancelled only at its own timer, `survivorDeadline`)"
+             " The HTTP/2 clients of the live tunnels send DATA frames without payload in the middle of their uploads",
         explanation="theorems stream_invariant, delivered_is_prefix, credit_*, finished_complete, eof_only_when_drained, eof_after_writes, "
                     "restart_preserves, no_call_after_failure, duplex_* about TT/Model/Pipe.lean for every answer sequence; "
                     "table_invariant, read_finished_keeps_response_side, reset_removes_stream, halves_end_independently, "
@@ -897,7 +909,8 @@ PROPS = {
              "state it left; the Lean model TT.QuicTimers replays the operations and must reach the same deadline table and "
              "closest_deadline after each one; the two invariants are also checked directly on the recorded states"
              " Directed histories of half-closed tunnels with steady traffic in the other direction (see C02); theorems half_closed_not_early / half_closed_transfer_restarts"
-             " Idle tunnels as the client sees them (in c14live): CONNECT over the real HTTP/1.1 and HTTP/2 codecs through the real direct forwarder to a loopback origin that stays silent, T = 500 ms, with one relayed byte or none: the client's connection (h1) / stream (h2) must end between T and 2T + slack after the last byte, and the origin's connection with it",
+             " Idle tunnels as the client sees them (in c14live): CONNECT over the real HTTP/1.1 and HTTP/2 codecs through the real direct forwarder to a loopback origin that stays silent, T = 500 ms, with one relayed byte or none: the client's connection (h1) / stream (h2) must end between T and 2T + slack after the last byte, and the origin's connection with it"
+             " Two more clients that never finish: one complete TLS record holding the first 32 bytes of the hello's handshake message, then silence; one complete record of another type, then silence",
         explanation="theorems idle_not_early, idle_bound_2T, progress_at_deadline_keeps_open, wf_step about the Timer model of "
                     "TT/Model/Pipe.lean; establishment_timeout_reported, establishment_in_time_connected, "
                     "establishment_timeout_destination_independent about TT.Dispatch.handle (the request path model of C10); "
@@ -986,9 +999,12 @@ PROPS = {
     "C01": dict(
         retry_on_failure=True,
         suites=["c01", "c01h3"],
+        # the plain-HTTP forwarding suite of C17, for request bytes that leave beyond the authorised request
+        borrowed_suites={"c17": []},
         judge=judge_c01,
         level="proof"
-             " The registry has a client with a mixed-case name (Alice / S3cret); the Proxy-Authorization pool has the pair as configured and re-cased / padded spellings of it and of user:pass (alice, ALICE, s3cret, User, 'pass ')",
+             " The registry has a client with a mixed-case name (Alice / S3cret); the Proxy-Authorization pool has the pair as configured and re-cased / padded spellings of it and of user:pass (alice, ALICE, s3cret, User, 'pass ')"
+             " Borrowed: the plain-HTTP forwarding suite of C17 (c17), for request bytes that leave the endpoint beyond the authorised request (a third of the generated requests with a declared length carry a pipelined next request behind their body)",
         rule='sessions over the real Http1Codec (1 request) and Http2Codec (1-3, thorough 1-5 concurrent streams) on in-memory transports through the real Core::on_tunnel_request / Tunnel / HttpDownstream with a scripted forwarder injected at Core::make_forwarder: authenticator {none, registry of 2 clients, scripted accepting one token and one SNI}, SNI credentials {none, accepted, rejected}, methods {CONNECT, GET, POST, OPTIONS, HEAD}, 19 authorities (reserved names, look-alikes differing by case / suffix / port, literals v4/v6 with and without port, names with and without port, bad port), 13 Proxy-Authorization forms (absent, two valid, wrong password / user, Bearer, lower-case scheme, no space, bad base64, non-UTF-8, empty, empty token, trailing space), 13 connect outcomes (ok, refused, unreachable, timed out, 310, 311, resolver failure, EMFILE, other, upstream auth failure, completion at D-1 / D / D+1 ms under the paused clock), UDP/ICMP multiplexer failures; per request status, X-Warning code, challenge, X-Adguard-Vpn-Error and the multiset of forwarder calls are compared with the Lean session model'
              ' HTTP/3 part (suite c01h3, wall clock): 150 (thorough 1200) sessions of 1-3 concurrent request streams through the real Core::listen on a loopback UDP port (QUIC multiplexer, HTTP/3 codec, Tunnel, HttpDownstream; quiche client of the harness; SNI credentials travel as <credentials>.localhost in the QUIC ClientHello), same authenticators, authorities, Proxy-Authorization forms and immediate connect outcomes, same query format and model',
         explanation="theorems gate_sound, policy_authenticated_only_if_accepted, registry_accepts_iff, reject_is_407_no_egress, "
@@ -1129,7 +1145,8 @@ PROPS = {
              "segmentations, a client that takes everything or 300 bytes per read; checked: the request the origin saw (line, Host, end-to-"
              "end headers, no Proxy-Authorization, body), status, X-A header, no hop-by-hop header, exact body, clean end of the stream"
              " Response heads with 31, 32, 33, 63, 64, 65, 100, 127, 128, 129, 200 header lines (whole and cut in the middle, client accepting 3 bytes first): the model refuses above `responseHeaderCapacity` = 128 (constants regenerated from the code), the implementation must answer and not spin (every scripted run is watched)"
-             " A third of the generated requests repeat a header name on two or three lines (all must be forwarded)",
+             " A third of the generated requests repeat a header name on two or three lines (all must be forwarded)"
+             " Responses carry Connection headers that nominate other fields of the response (X-Thing, SERVER, Set-Cookie, Content-Type, Upgrade) in their own spelling, ahead of those fields and behind them; a third of the requests with a declared length have more body bytes than declared (theorem connection_nominated_headers_removed)",
         explanation="theorems segmentation_and_backpressure_independent, independent_after_origin_close, delivery_monotone, "
                     "chunked_body_delivered_exactly, content_length_body_delivered_exactly, close_delimited_body_delivered_exactly, "
                     "bodiless_response_ends_with_head, head_204_304_are_bodiless, interim_response_is_transparent, "
@@ -1195,7 +1212,8 @@ PROPS = {
              "length compared with the model; 17 and 100 MiB in the thorough tier), reverse proxy through the path mask and on the "
              "reverse-proxy host (the origin must see the request line, X-Original-Protocol: http3 and the end-to-end header; the client "
              "the origin's status, header and body)"
-             " The reverse-proxy clients send an X-Original-Protocol header of their own naming another protocol: the origin must see exactly one, the endpoint's",
+             " The reverse-proxy clients send an X-Original-Protocol header of their own naming another protocol: the origin must see exactly one, the endpoint's"
+             " The origins write their response heads in four or five pieces 15 ms apart (inside the status line, inside the header block, before the final CRLF)",
         explanation="theorems demux_precedence, download_accept_iff, download_exact, download_completes, upload_accept_iff, else_400, "
                     "post_other_path_400, upload_done, upload_counts, x_original_protocol_present about TT/Model/Services.lean",
         trusted=["Rust's u32 FromStr as modelled by parseU32 (optional '+', digits, range)", "http crate Uri::path()",
@@ -1220,7 +1238,8 @@ PROPS = {
              "carrying the 10 request kinds and ping / speedtest / reverse-proxy requests as concurrent streams, the QUIC multiplexer's "
              "and quiche's own log lines included in the search, plus one request per connection that the endpoint rejects while building it "
              "(secret-bearing headers under invalid field names)"
-             " Reverse-proxy requests (path mask + Upgrade) on connections that authenticated by SNI (accepted / rejected credentials / none), without a Host header, with one, with an absolute target",
+             " Reverse-proxy requests (path mask + Upgrade) on connections that authenticated by SNI (accepted / rejected credentials / none), without a Host header, with one, with an absolute target"
+             " Refused SNIs have the credentials label in front of one, two and three further labels (<creds>.unknownhost, <creds>.localhos, ...)",
         explanation="theorems scrub_request_hides (non-interference), scrubbed_values_are_placeholders, scrub_keeps_other_headers, "
                     "scrub_adds_nothing, scrub_sni_hides_label, meta_debug_hides_creds about TT/Model/Scrub.lean; all_log_sites_clean over the "
                     "regenerated TT/Gen/LogSites.lean",
